@@ -129,12 +129,31 @@ def gen_cases(tier: str, seed: int) -> List[Dict]:
             c["id"] = "%s-%03d-%s" % (PROP, n, kind)
             c["op"] = kind
             cases.append(c)
+    # narrow native coefficient dtypes with coefficients whose derivative leaves the dtype's range (native runs)
+    for dt, big in (("int8", 100), ("int16", 30000), ("uint8", 200), ("int32", 2 ** 30)):
+        for names, exps in [(("q0", "q1"), [[1, 0], [3, 1], [0, 2]]), (("q0",), [[1], [2], [3]])]:
+            p = S.make_poly_spec("a", names, exps, rng.choice([(), (2,)]), rng, 2, mode="raw", zero_prob=0.0, literal_prob=0.0)
+            p["slots"] = [[(big if (i + j) % 2 else s) for j, s in enumerate(col)] for i, col in enumerate(p["slots"])]
+            p["dtype"] = dt
+            if dt.startswith("u"):
+                p["unsigned"] = True
+            for fnk, dv in (("derivative", [0]), ("derivative", [names[-1]]), ("gradient", None), ("hessian", None)):
+                n += 1
+                c = {"id": "%s-%03d-%s-%s" % (PROP, n, fnk, dt), "op": fnk, "fn": fnk, "poly": p, "options": {}, "limits": lim}
+                if dv is not None:
+                    c["diffvars"] = dv
+                cases.append(c)
     # mixed partials in both orders on the same structure (symmetry), default and retain_names=False
-    for opt in ({}, {"retain_names": False}, {"retain_coefficients": True}):
-        p = S.make_poly_spec("a", ("q0", "q1", "q2"), [[1, 1, 2], [1, 1, 0], [0, 0, 1], [2, 0, 0]], (), rng, 4, mode="raw", zero_prob=0.0, literal_prob=0.0)
-        for dv in ([0, 1], [1, 0], ["q0", "q2"], [0, 2], [{"indet": "q1"}, 0]):
-            n += 1
-            cases.append({"id": "%s-%03d-mixed" % (PROP, n), "op": "derivative", "fn": "derivative", "poly": p, "diffvars": dv, "options": opt, "limits": lim})
+    # (second structure: the first round eliminates q0 / q1 altogether, so later positions must still mean the original names)
+    for opt in ({}, {"retain_names": False}, {"retain_coefficients": True}, {"retain_names": False, "retain_coefficients": True}):
+        for rows, dvs in (
+            ([[1, 1, 2], [1, 1, 0], [0, 0, 1], [2, 0, 0]], ([0, 1], [1, 0], ["q0", "q2"], [0, 2], [{"indet": "q1"}, 0])),
+            ([[1, 1, 2], [0, 1, 0], [0, 0, 1]], ([0, 1], [0, 2], ["q0", 2], [1, 2], [{"indet": "q0"}, 1], [0, 1, 2], [1, 0])),
+        ):
+            p = S.make_poly_spec("a", ("q0", "q1", "q2"), rows, (), rng, 4, mode="raw", zero_prob=0.0, literal_prob=0.0)
+            for dv in dvs:
+                n += 1
+                cases.append({"id": "%s-%03d-mixed" % (PROP, n), "op": "derivative", "fn": "derivative", "poly": p, "diffvars": dv, "options": opt, "limits": lim})
     return cases
 
 
